@@ -1,3 +1,15 @@
+/-
+C37 — helper lemmas (property theorems are in Props.lean).
+
+  * vectors / `vecMat`: linearity of `b ↦ b·A` on lists, without length side conditions where possible
+  * Gauss–Jordan: row invariant `RowOK` (the right part of a work row reproduces, through the original
+    matrix, the virtual full left part `prefix ++ rest`), `gjLoop_spec`, `inverse_left`
+  * label merging: `LabInv` (labels are node names; equal labels ⇒ connected), `labels_closed`
+  * components / `permSearch`: disjointness, `permSearch_cases`, permutation lemmas
+  * `toMatrix`: reading of a list of rows as a Mathlib matrix, `toMatrix_mul_of_matMul`
+  * block structure of Mathlib matrices: `sum_fibre`, `closed_block_mul_right/left`, `card_le_of_mul_eq_one`
+  * csr layout: `layoutRows`, `layout_entries`, `layout_rowLengths`
+-/
 import PorepyVerif.C37.Model
 import Mathlib.Tactic.Ring
 import Mathlib.Algebra.Order.Field.Rat
